@@ -3,7 +3,7 @@ package main
 func init() {
 	register(&propInfo{
 		ID:          "C15",
-		Explanation: "Necessary conditions of the JSON outputter, decided structurally: (J.escape) value-set analysis of appendString over all 256 byte values - the guards of its switch/if are folded for each byte and the bytes appended on the selected path must be a valid JSON escape decoding to that byte for 0x00-0x1f, the quote and the backslash, and the byte itself otherwise; the string is wrapped in quotes and the loop visits every byte; (J.float/J.int) every strconv.AppendFloat uses precision -1 (shortest representation that parses back) with a bit size not smaller than its argument's, integers are base 10; (T.reset) Reset returns every field of JSONOutput to its zero state (field list from go/types, so a field added later and not reset is caught); (J.protocol) each scalar method is prefix(); emit; punctuate() with each helper exactly once and no branching, Start*/End* push/pop exactly once with the right state and bracket, NameField sets inField, and punctuate's separators and state transitions are the key/value/array ones over exactly three states.",
+		Explanation: "Necessary conditions of the JSON outputter, decided structurally: (J.escape) value-set analysis of appendString over all 256 byte values - the guards of its switch/if are folded for each byte and the bytes appended on the selected path must be a valid JSON escape decoding to that byte for 0x00-0x1f, the quote and the backslash, and the byte itself otherwise; the string is wrapped in quotes and the loop visits every byte; (J.float/J.int) every strconv.AppendFloat uses precision -1 (shortest representation that parses back) with a bit size not smaller than its argument's, integers are base 10; (J.nonfinite) every such call is reached only on the false branches of math.IsNaN and math.IsInf (both signs) of the value it formats - strconv would write NaN/+Inf/-Inf, which are not JSON; (T.reset) Reset returns every field of JSONOutput to its zero state (field list from go/types, so a field added later and not reset is caught); (J.protocol) each scalar method is prefix(); emit; punctuate() with each helper exactly once and no branching, Start*/End* push/pop exactly once with the right state and bracket, NameField sets inField, and punctuate's separators and state transitions are the key/value/array ones over exactly three states.",
 		NotDecided:  "That the punctuation machine yields valid JSON for all nestings and adjacencies (a reachability question over an extracted state machine: model checking, another family); number/string parse-back as values; end()'s trailing-comma trimming.",
 		Assumptions: []string{"A5"},
 		Run: func(c *Ctx) {
